@@ -41,6 +41,8 @@ type c16Expect struct {
 var c16Contents = []string{
 	"alpha\n", "alpha beta\ngamma\n", "", "-- a --\n", "x\n-- marker.txt --\ny\n", "-- not a marker\n", "--  --\n", ">quoted\n",
 	"no final newline", "-- a --", "line1\nline2", "\n", "\n\n", "-- g1.txt --\n", " -- a --\n", "$X and ${Y}\n", "tab\there\n",
+	"bad\xff\n-- a --\n", // needs quoting, but is not UTF-8: txtar.Quote refuses
+	"bad\xff\nplain\n",   // not UTF-8 but needs no quoting: stored as it is
 }
 
 // producer returns the script lines that make `src` (stdout | stderr | a file name) hold text.
@@ -50,6 +52,13 @@ func c16Producer(r *common.RNG, text string, i int) (lines []string, src string)
 	body := strings.TrimSuffix(text, "\n")
 	multi := strings.Contains(body, "\n")
 	file := fmt.Sprintf("act%d.txt", i)
+	if i8 := strings.Index(text, "\xff\n"); i8 >= 0 && nl {
+		ws := []string{c16Quote(text[:i8])}
+		for _, l := range strings.Split(strings.TrimSuffix(text[i8+2:], "\n"), "\n") {
+			ws = append(ws, c16Quote(l))
+		}
+		return []string{"exec " + h + " lines8 " + strings.Join(ws, " ")}, "stdout"
+	}
 	switch {
 	case text == "":
 		switch r.Intn(3) {
@@ -115,6 +124,9 @@ func c16Words(body string) string {
 // what the producer really produces (the default branch of c16Producer is lossy)
 func c16Produced(text string) string {
 	nl := strings.HasSuffix(text, "\n")
+	if strings.Contains(text, "\xff\n") && nl {
+		return text
+	}
 	body := strings.TrimSuffix(text, "\n")
 	switch {
 	case text == "":
@@ -135,33 +147,65 @@ func c16Produced(text string) string {
 	return b.String()
 }
 
+// golden entry names: the same base names at several levels
+var c16Names = []string{"g1.txt", "want", "sub/g1.txt", "sub/want", "sub/deep/want", "golden/g3.txt", "g4.golden", "sub/deep/g1.txt"}
+
+// c16Ref renders entry name (relative to $WORK) as seen from the directory cwd ("" = $WORK).
+func c16Ref(r *common.RNG, cwd, name string) string {
+	if cwd != "" && strings.HasPrefix(name, cwd+"/") {
+		rel := name[len(cwd)+1:]
+		if r.Chance(1, 5) {
+			return "./" + rel
+		}
+		return rel
+	}
+	if cwd == "" {
+		switch r.Intn(6) {
+		case 0:
+			return "$WORK/" + name
+		case 1:
+			return "./" + name
+		}
+		return name
+	}
+	return "$WORK/" + name
+}
+
 func genC16(r *common.RNG, id string) (*Case, *c16Expect) {
 	c := &Case{ID: id, Kind: "c16", Upd: true, Coe: r.Chance(1, 2), Cmds: r.Chance(1, 3)}
 	ex := &c16Expect{Updates: map[string]string{}, Known: true}
 	n := 1 + r.Intn(5)
-	goldenNames := []string{"g1.txt", "g2.txt", "golden/g3.txt", "g4.golden", "golden/deep/g5.txt"}
 	golden := map[string]string{}
+	isEntry := map[string]bool{}
 	var order []string
+	perm := append([]string{}, c16Names...)
+	for i := len(perm) - 1; i > 0; i-- {
+		j := r.Intn(i + 1)
+		perm[i], perm[j] = perm[j], perm[i]
+	}
 	for i := 0; i < n; i++ {
-		name := goldenNames[i]
+		name := perm[i]
 		if r.Chance(1, 12) && i > 0 {
-			name = goldenNames[r.Intn(i)] // a duplicate entry name
+			name = perm[r.Intn(i)] // a duplicate entry name
 		}
 		text := pick(r, c16Contents)
 		if text != "" && !strings.HasSuffix(text, "\n") {
 			text += "\n" // goldens in the file are newline-terminated (Parse would add it anyway)
 		}
-		if txtar.NeedsQuote([]byte(text)) {
-			text = "plain golden\n"
+		if txtar.NeedsQuote([]byte(text)) || strings.Contains(text, "\xff") {
+			text = "plain golden\n" // (a Case travels as JSON: keep the file itself valid UTF-8)
 		}
 		c.Files = append(c.Files, AFile{Name: name, Data: text})
 		golden[name] = text // with duplicates the last one is what is on disk
+		isEntry[name] = true
 		order = append(order, name)
 	}
 	// an unrelated entry that must never change
 	if r.Chance(1, 2) {
 		c.Files = append(c.Files, AFile{Name: "other.txt", Data: "untouched\n-- not a marker\n"})
+		isEntry["other.txt"] = true
 	}
+	c.Lines = append(c.Lines, "mkdir $WORK/sub/deep $WORK/golden")
 	failed := false
 	ex.Rerun = true
 	refs := map[string]int{}
@@ -170,12 +214,24 @@ func genC16(r *common.RNG, id string) (*Case, *c16Expect) {
 			ex.Rerun = false // compared twice: one entry cannot match two actual contents
 		}
 	}
+	cwd := ""
+	chdir := func(to string) {
+		if to == cwd {
+			return
+		}
+		cwd = to
+		if to == "" {
+			c.Lines = append(c.Lines, "cd $WORK")
+		} else {
+			c.Lines = append(c.Lines, "cd $WORK/"+to)
+		}
+	}
 	for i, name := range order {
 		if failed && !c.Coe {
 			break
 		}
 		want := golden[name]
-		kind := r.Intn(10)
+		kind := r.Intn(12)
 		var actual string
 		switch kind {
 		case 0, 1: // matching
@@ -183,18 +239,17 @@ func genC16(r *common.RNG, id string) (*Case, *c16Expect) {
 		default:
 			actual = pick(r, c16Contents)
 		}
-		if c16Produced(actual) != actual {
-			actual = c16Produced(actual)
+		actual = c16Produced(actual)
+		// where the comparison runs: $WORK, the entry's own directory, or another one
+		dirs := []string{"", "sub", "sub/deep", "golden"}
+		if d := strings.LastIndex(name, "/"); d >= 0 && r.Chance(1, 2) {
+			chdir(name[:d])
+		} else if r.Chance(1, 3) {
+			chdir(pick(r, dirs))
 		}
 		lines, src := c16Producer(r, actual, i)
 		c.Lines = append(c.Lines, lines...)
-		ref := name
-		switch r.Intn(6) {
-		case 0:
-			ref = "$WORK/" + name
-		case 1:
-			ref = "./" + name
-		}
+		ref := c16Ref(r, cwd, name)
 		lineNo := len(c.Lines) + 1
 		switch kind {
 		case 0, 1, 2, 3, 4, 5: // plain cmp against the archive entry
@@ -203,9 +258,48 @@ func genC16(r *common.RNG, id string) (*Case, *c16Expect) {
 				ex.Updates[name] = actual
 			}
 		case 6: // against a copy outside the archive
-			c.Lines = append(c.Lines, "cp "+name+" copy"+fmt.Sprint(i)+".txt")
+			c.Lines = append(c.Lines, "cp "+ref+" copy"+fmt.Sprint(i)+".txt")
 			lineNo++
 			c.Lines = append(c.Lines, "cmp "+src+" copy"+fmt.Sprint(i)+".txt")
+			if actual != want {
+				ex.FailLines = append(ex.FailLines, lineNo)
+				failed = true
+			}
+		case 10, 11:
+			// a file outside the archive that has, from the current directory, the very
+			// relative name an entry has from $WORK: it must not be taken for that entry
+			base := name[strings.LastIndex(name, "/")+1:]
+			var where string
+			for _, d := range []string{"sub", "golden", "sub/deep", ""} {
+				p := base
+				if d != "" {
+					p = d + "/" + base
+				}
+				if !isEntry[p] && p != name {
+					where = d
+					break
+				}
+			}
+			full := base
+			if where != "" {
+				full = where + "/" + base
+			}
+			if isEntry[full] || full == name {
+				c.Lines = append(c.Lines, "cmp "+src+" "+ref)
+				if actual != want {
+					ex.Updates[name] = actual
+				}
+				break
+			}
+			c.Lines = append(c.Lines, "cp $WORK/"+name+" $WORK/"+full)
+			chdir(where)
+			lines, src = c16Producer(r, actual, i) // the producer's file must be in the new directory
+			c.Lines = append(c.Lines, lines...)
+			lineNo = len(c.Lines) + 1
+			// the outside file is now reachable under a relative name that, read from $WORK,
+			// would be (or look like) an archive entry
+			outRef := base
+			c.Lines = append(c.Lines, "cmp "+src+" "+outRef)
 			if actual != want {
 				ex.FailLines = append(ex.FailLines, lineNo)
 				failed = true
@@ -287,9 +381,26 @@ func (rn *runner) c16Oracle(c *Case, ex *c16Expect, o *Obs) (string, string) {
 		stored[name] = data
 	}
 	if unquotable {
-		// txtar.Quote refuses: nothing may be written
+		// txtar.Quote refuses: nothing may be written and the run is a reported failure whose
+		// last FAIL line is the one of applyScriptUpdates (logged with the current line number)
+		if o.Verdict == "PANIC" {
+			return "update-run-no-crash", "the update run crashed (" + o.PanicVal + ") instead of being reported as failed"
+		}
 		if !bytes.Equal(o.FileAfter, c.fileBytes()) {
 			return "unquotable-update-must-not-write", "the file changed although an updated content cannot be quoted"
+		}
+		if o.Verdict != "fail" {
+			return "unquotable-update-must-fail", "verdict " + o.Verdict
+		}
+		want := append([]int{}, ex.FailLines...)
+		last := len(c.Lines)
+		if len(want) > 0 && !c.Coe {
+			want = want[:1]
+			last = want[0]
+		}
+		want = append(want, last)
+		if !eqInts(o.FailLines, want) {
+			return "unquotable-update-fail-lines", fmt.Sprintf("want %v, got %v", want, o.FailLines)
 		}
 		return "", ""
 	}
@@ -385,29 +496,32 @@ func (rn *runner) c16Judge(c *Case, ex *c16Expect) {
 			}
 		}
 	}
+	if ex == nil && o.Verdict == "PANIC" {
+		// corpus / replay: the one thing that needs no expectation
+		rn.count("oracle-fails:update-run-no-crash")
+		rn.violate(common.Violation{Kind: "impl-violation", Oracle: "update-run-no-crash", Input: rn.input(c), Key: "c16:update-run-no-crash:" + strings.Join(c.Lines, ";"),
+			Impl:   fmt.Sprintf("verdict=%s panic=%q", o.Verdict, o.PanicVal),
+			Detail: "an update run must end as passed or as a reported failure; it crashed\nlog:\n" + tail(o.Log, 800)})
+	}
 	// model
 	if m.Racy || m.Unmod {
 		rn.count("model:racy-or-unmodelled-not-compared")
 		return
 	}
-	d := ""
-	if m.Change == "error" {
-		if o.Verdict != "PANIC" || changed {
-			d = "unquotable-update"
-		}
-	} else {
-		d = corrDiff(c, o, m)
-	}
-	if d != "" {
+	if d := corrDiff(c, o, m); d != "" {
 		rn.count("mismatch:" + d)
 		again := rn.run(c)
-		if m.Change != "error" && corrDiff(c, again.o, again.m) == "" {
+		if corrDiff(c, again.o, again.m) == "" {
 			rn.count("mismatch-flake")
 			return
 		}
+		change := m.Change
+		if change != "untouched" && change != "error" {
+			change = string(common.UnHex(change))
+		}
 		rn.violate(common.Violation{Kind: "correspondence", Oracle: d, Input: rn.input(c), Key: "c16-corr:" + d + ":" + strings.Join(c.Lines, ";"),
 			Impl:   fmt.Sprintf("verdict=%s FAIL-lines=%v panic=%q file after=%q", o.Verdict, o.FailLines, o.PanicVal, o.FileAfter),
-			Model:  fmt.Sprintf("verdict=%s fail-lines=%v change=%q", m.Verdict, m.FailLines, string(common.UnHex(strings.Replace(strings.Replace(m.Change, "untouched", "-", 1), "error", "-", 1)))),
+			Model:  fmt.Sprintf("verdict=%s fail-lines=%v change=%q", m.Verdict, m.FailLines, change),
 			Detail: "model and implementation differ\nlog:\n" + tail(o.Log, 800)})
 	}
 }
